@@ -137,6 +137,11 @@ func (namesStream) Execute(c Case) {
 		if pre, _ := c["preexisting"].(bool); pre && !lastMissing {
 			_ = cache.WriteSpec(namesSpec(vendor, class), name)
 		}
+		// removing the name before anything was written under it - also while the last directory does not exist -
+		// succeeds and changes nothing (recorded as a derived observation, judged like the removal of a missing name)
+		pre0 := snapshotTree(namesRoot)
+		rerr0 := cache.RemoveSpec(name + ".absent")
+		ch0, nd0 := diffTree(pre0, snapshotTree(namesRoot))
 		before := snapshotTree(namesRoot)
 		spec := namesSpec(vendor, class)
 		spec.Devices[0].ContainerEdits.Env = []string{"A=new"}
@@ -187,6 +192,9 @@ func (namesStream) Execute(c Case) {
 				_ = cache.RemoveSpec(name)
 			}
 			sp := []Case{mk("remove", written, rerr, ch2, nd2), mk("remove2", nil, rerr2, ch3, nil)}
+			r0 := mk("remove0", nil, rerr0, ch0, nd0)
+			r0["name"] = hx(name + ".absent")
+			sp = append(sp, r0)
 			if err == nil && rerr == nil {
 				sp = append(sp, mk("rewrite", written, err4, ch4, nd4))
 			}
